@@ -99,6 +99,8 @@ KEYS = ["kR", "kI1", "kI2", "kE", "kR2", "kL"]
 def materialise(scens, pkidir, certgen, fam="rsa"):
     """fam: the key family of every key pair of the universe - rsa (2048), ec (P-256) or ed (Ed25519)"""
     os.makedirs(pkidir, exist_ok=True)
+    pss = fam == "pss"            # rsaEncryption keys, every certificate signed with RSASSA-PSS
+    if pss: fam = "rsa"
     lines = ["key %s %s" % (k, fam) for k in KEYS]
     done = set()
     universe = [ROOT, INT1, INT2, EVIL, ROOT2]
@@ -111,8 +113,8 @@ def materialise(scens, pkidir, certgen, fam="rsa"):
             pre, ln = certgen_line(c, universe + list(ch) + list(an))
             for p in pre:
                 if p.split()[1] not in done:
-                    done.add(p.split()[1]); lines.append(p)
-            lines.append(ln)
+                    done.add(p.split()[1]); lines.append(p + (" pad=pss" if pss else ""))
+            lines.append(ln + (" pad=pss" if pss else ""))
     p = subprocess.run([certgen, pkidir], input="\n".join(lines) + "\n", capture_output=True, text=True)
     if p.returncode != 0:
         raise SystemExit("INFRA: certgen failed: " + p.stderr[-2000:])
